@@ -290,7 +290,10 @@ def rule_SH(run: Run) -> RuleResult:
     RTN._rt(run)
     CUR = f"call:setdefault({RTN.T_KEY},call:threading.current_thread,new:Runtime(Const(None)))"
     rets = [p.ret.key() if p.status == "ret" and p.ret is not None else p.status for p in lps]
-    ok = bool(rets) and "log" in tw_short and all(r == f"call:handle({CUR},class<labrea.logging.LogRequest>,Fn({tw_short['log']};))" for r in rets)
+    # handle(LogRequest, handler) or the mapping form handle({LogRequest: handler}) — the same derived runtime
+    ok = bool(rets) and "log" in tw_short and all(r in (f"call:handle({CUR},class<labrea.logging.LogRequest>,Fn({tw_short['log']};))",
+                                                        f"call:handle({CUR},dict(item(class<labrea.logging.LogRequest>,Fn({tw_short['log']};))))",
+                                                        f"call:handle({CUR},dict(item(class<labrea.logging.LogRequest>,Fn({tw_short['log']};))),Const(None))") for r in rets)
     res.add("labrea.logging.disabled:swaps the log handler for the disabled one", ok, lm.relpath, ld.node.lineno, f"{[r[:90] for r in rets]}", nec)
     # effects switch
     cmod = repo.modules["labrea.computation"]
@@ -1196,6 +1199,44 @@ def _sentinel_confined(repo, mod, name: str) -> bool:
                 if (isinstance(f, ast.Name) and f.id in ("getattr", "next") and par.args.index(x) == (2 if f.id == "getattr" else 1)) or \
                         (isinstance(f, ast.Attribute) and f.attr in ("get", "pop") and par.args.index(x) == 1):
                     continue
+            if isinstance(par, ast.arguments) and (x in par.defaults or x in par.kw_defaults):
+                # "argument not given" marker of a parameter: fine when the parameter is only ever used after the test
+                # ``param is <sentinel>`` came out false (it can then not be the sentinel that is stored or handed on)
+                fn_ = pm.get(id(par))
+                if isinstance(fn_, (ast.FunctionDef, ast.Lambda)):
+                    pos_ = par.posonlyargs + par.args
+                    if x in par.defaults:
+                        pname = pos_[len(pos_) - len(par.defaults) + par.defaults.index(x)].arg
+                    else:
+                        pname = par.kwonlyargs[par.kw_defaults.index(x)].arg
+                    if _param_guarded_by_sentinel(fn_, pname, name, pm):
+                        continue
+            return False
+    return True
+
+
+def _param_guarded_by_sentinel(fn, pname: str, sentinel: str, pm) -> bool:
+    """Every use of the parameter is the identity test against the sentinel, or sits where that test came out false."""
+    def is_test(t, positive: bool) -> bool:
+        return isinstance(t, ast.Compare) and len(t.ops) == 1 and isinstance(t.ops[0], ast.Is if positive else ast.IsNot) \
+            and isinstance(t.left, ast.Name) and t.left.id == pname and isinstance(t.comparators[0], ast.Name) and t.comparators[0].id == sentinel
+    for u in ast.walk(fn):
+        if not (isinstance(u, ast.Name) and u.id == pname and isinstance(u.ctx, ast.Load)):
+            continue
+        par = pm.get(id(u))
+        if isinstance(par, ast.Compare) and (is_test(par, True) or is_test(par, False)):
+            continue
+        cur, ok = u, False
+        while id(cur) in pm and cur is not fn:
+            up = pm[id(cur)]
+            if isinstance(up, (ast.IfExp, ast.If)):
+                in_body = (cur is up.body) if isinstance(up, ast.IfExp) else any(cur is b_ for b_ in up.body)
+                in_else = (cur is up.orelse) if isinstance(up, ast.IfExp) else any(cur is b_ for b_ in up.orelse)
+                if (is_test(up.test, True) and in_else) or (is_test(up.test, False) and in_body):
+                    ok = True
+                    break
+            cur = up
+        if not ok:
             return False
     return True
 
@@ -1315,6 +1356,15 @@ def rule_GA(run: Run) -> RuleResult:
         for s in stmts:
             if isinstance(s, ast.If) and any(isinstance(x, ast.Raise) for x in s.body):
                 te = eff_g.get(id(s), s.test)
+                # private name predicates (``_is_public(key)`` = ``not key.startswith('_')``) are read through
+
+                def _pred(call, _m=c.module):
+                    if isinstance(call.func, (ast.Name, ast.Attribute)):
+                        r_ = repo.resolve_expr(_m, call.func)
+                        if r_ and r_[0] == "func" and (r_[1].node.name.startswith("_") or r_[1].module.name.rsplit(".", 1)[-1].startswith("_")):
+                            return r_[1].node, False
+                    return None
+                te = astu.inline_helpers(te, _pred)
                 t = ast.unparse(te)
                 reads_self = any(isinstance(x, ast.Attribute) and isinstance(x.value, ast.Name) and x.value.id == "self" and x.attr != "__dict__" for x in ast.walk(te))
                 if (f"{name}.startswith('_" in t or f"{name}.startswith(\"_" in t) and not reads_self:
